@@ -637,6 +637,8 @@ class Interp:
         self.frob_q = frob_q        # integer q meaning frobenius_map(c)(x) = x^(q^c)
         self.extra_transfer = extra_transfer
         self.stop_on_unknown_switch = stop_on_unknown_switch
+        self.block_hook = None     # (fr, bb, pth) -> new bb | None : region summaries
+        self.switch_hook = None    # (fr, term, dv, pth) -> target bb | None : assumed branch outcomes
         self.opaque_sites = []
         self.call_sites = 0
 
@@ -678,6 +680,14 @@ class Interp:
             if stop_at is not None and bb == stop_at:
                 results.append((pth, ('stopped', fr), {}))
                 return
+            if self.block_hook is not None:
+                nb = self.block_hook(fr, bb, pth)
+                if nb is not None:
+                    self.steps += 1
+                    if self.steps > self.max_steps:
+                        raise Budget('step budget exceeded in %s' % body.path)
+                    bb = nb
+                    continue
             self.steps += 1
             if self.steps > self.max_steps:
                 raise Budget('step budget exceeded in %s' % body.path)
@@ -730,6 +740,11 @@ class Interp:
                     label = o.label
                 elif isinstance(dv, tuple) and dv[0] == 'bool':
                     label = dv[1]
+                if decided is None and self.switch_hook is not None:
+                    forced = self.switch_hook(fr, t, dv, pth)
+                    if forced is not None:
+                        bb = forced
+                        continue
                 if decided is None and self.stop_on_unknown_switch and not (isinstance(dv, tuple) and dv and dv[0] in ('bool', 'discr')):
                     results.append((pth, ('stopped', fr, bb), {}))
                     return
